@@ -13,36 +13,52 @@ CSV = 'src/include/souffle/io/ReadStreamCSV.h'
 
 
 def tail_of(src, fn_regex, log, name):
-    """numeric tail = declaration of `val` + everything after the `tmp` declaration, to the end of the body"""
+    """numeric tail = declaration of the result variable + everything after the selection of the text to parse
+    (`const std::string& T = C ? A : B;`), to the end of the body.  Names are taken from the source (roles, not spellings):
+    returns (tail text, T, position parameter, base parameter, C)."""
+    m0 = src.find(fn_regex)
+    sig = src.b[m0.start():m0.end()]
+    params = re.findall(r'(\w+)\s*(?:=[^,)]*)?\s*[,)]', sig[sig.index('(') + 1:])
+    if len(params) != 3:
+        raise ExtractError('%s: expected the parameters (text, position, base), found %s' % (name, params))
     body, (bs, be) = src.body(fn_regex)
     bb = src.b[bs:be]
-    m = re.search(r'const\s+std::string\s*&\s*tmp\s*=[^;]*;', bb)
+    m = re.search(r'const\s+std::string\s*&\s*(\w+)\s*=\s*(\w+)\s*\?\s*(\w+)\s*:\s*(\w+)\s*;', bb)
     if not m:
-        raise ExtractError('%s: `const std::string& tmp = ...;` anchor not found' % name)
+        raise ExtractError('%s: the selection `const std::string& T = C ? A : B;` of the text to parse was not found' % name)
+    T, C = m.group(1), m.group(2)
     tail = body[m.end():]
-    tb = bb[m.end():]
-    d = re.search(r'^[ \t]*((?:[\w:]+[ \t]+)+)val[ \t]*;', bb, re.M)
+    mv = re.search(r'\b(\w+)\s*=\s*std::sto[a-z]+\s*\(\s*%s\s*,' % re.escape(T), bb[m.end():])
+    if not mv:
+        raise ExtractError('%s: no `V = std::sto*(%s, ...)` after the selection' % (name, T))
+    V = mv.group(1)
+    d = re.search(r'^[ \t]*((?:[\w:]+[ \t]+)+)%s[ \t]*;' % re.escape(V), bb, re.M)
     if not d:
-        raise ExtractError('%s: declaration of `val` not found' % name)
+        raise ExtractError('%s: declaration of the result variable `%s` not found' % (name, V))
     if d.start() < m.end():
         tail = body[d.start():d.end()] + '\n' + tail
-    log['%s: declared type of val' % name] = re.sub(r'\s+', ' ', d.group(1).strip())
-    # what precedes the tail must not touch val / position (so the tail starts from their initial state)
+    log['%s: roles (text, position, base, binary flag, result variable : type)' % name] = '%s, %s, %s, %s, %s : %s' % (T, params[1], params[2], C, V, re.sub(r'\s+', ' ', d.group(1).strip()))
+    # what precedes the tail must not touch the result variable / *position (so the tail starts from their initial state)
     pre = bb[:m.end()]
     pre_wo_decl = pre[:d.start()] + pre[d.end():] if d.start() < m.end() else pre
     pre_wo_rec = re.sub(r'return\s+Ram\w+FromString\([^;]*\);', '', pre_wo_decl)
-    if re.search(r'\bval\b', pre_wo_rec) or re.search(r'\*\s*position|position\s*\[', pre_wo_rec):
-        raise ExtractError('%s: code before the numeric tail touches val/position; tail slicing is no longer valid' % name)
-    return tail
+    if re.search(r'\b%s\b' % re.escape(V), pre_wo_rec) or re.search(r'\*\s*%s|%s\s*\[' % (re.escape(params[1]), re.escape(params[1])), pre_wo_rec):
+        raise ExtractError('%s: code before the numeric tail touches the result variable / *position; tail slicing is no longer valid' % name)
+    return tail, (T, params[1], params[2], C)
 
 
 def extract(ctx):
     ramtypes.extract(ctx)
     log = {}
     su = Source(os.path.join(ctx.repo, SU))
-    ut = tail_of(su, r'inline\s+RamUnsigned\s+RamUnsignedFromString\s*\([^)]*\)\s*\{', log, 'RamUnsignedFromString')
-    st = tail_of(su, r'inline\s+RamSigned\s+RamSignedFromString\s*\([^)]*\)\s*\{', log, 'RamSignedFromString')
+    ut, un = tail_of(su, r'inline\s+RamUnsigned\s+RamUnsignedFromString\s*\([^)]*\)\s*\{', log, 'RamUnsignedFromString')
+    st, sn = tail_of(su, r'inline\s+RamSigned\s+RamSignedFromString\s*\([^)]*\)\s*\{', log, 'RamSignedFromString')
     fb, _ = su.body(r'inline\s+RamFloat\s+RamFloatFromString\s*\([^)]*\)\s*\{')
+    fm = su.find(r'inline\s+RamFloat\s+RamFloatFromString\s*\([^)]*\)\s*\{')
+    fsig = su.b[fm.start():fm.end()]
+    fparams = tuple(re.findall(r'(\w+)\s*(?:=[^,)]*)?\s*[,)]', fsig[fsig.index('(') + 1:]))
+    if len(fparams) != 2:
+        raise ExtractError('RamFloatFromString: expected the parameters (text, position), found %s' % (fparams,))
 
     def rules(t, ret):
         t = strip_comments(t)
@@ -57,11 +73,10 @@ def extract(ctx):
     ft2 = rules(fb, 'RamFloat')
     if log['R8 std::sto* -> vx_sto*'] < 2:
         raise ExtractError('R8 must fire in both tails')
-    text = ('#include <string>\n#include <stdexcept>\n#include <cstddef>\n#include <cassert>\n#include "ramtypes.hpp"\n#include "vx_numparse.h"\nnamespace souffle {\n'
-            'RamUnsigned ustr_tail(const std::string& tmp, std::size_t* position, const int base, bool parsingBinary) {\n%s}\n'
-            'RamSigned sstr_tail(const std::string& tmp, std::size_t* position, const int base, bool parsingBinary) {\n%s}\n'
-            '// whole body of RamFloatFromString\nRamFloat fstr_body(const std::string& str, std::size_t* position) {\n%s}\n'
-            '}\n' % (ut2, st2, ft2))
+    text = ('#include <string>\n#include <stdexcept>\n#include <cstddef>\n#include <cassert>\n#include "ramtypes.hpp"\n#include "vx_numparse.h"\nnamespace souffle {\n' +
+            'RamUnsigned ustr_tail(const std::string& %s, std::size_t* %s, const int %s, bool %s) {\n' % un + ut2 + '}\n' +
+            'RamSigned sstr_tail(const std::string& %s, std::size_t* %s, const int %s, bool %s) {\n' % sn + st2 + '}\n' +
+            '// whole body of RamFloatFromString\nRamFloat fstr_body(const std::string& %s, std::size_t* %s) {\n' % fparams + ft2 + '}\n}\n')
     ctx.write('extracted.hpp', text)
     ctx.rewrites.update(log)
     ctx.dropped += [
